@@ -132,6 +132,14 @@ def move_staticmethod_static_scope(source: str, preserve: Collection[str]) -> st
             attributes_to_preserve.add(node.attr)
 
     static_names = {funcdef.name for funcdef in parsing.iter_funcdefs(root)} | preserve
+    # The moved function must not take the name of anything else the module knows by name
+    static_names |= {node.id for node in core.walk(root, ast.Name)}
+    static_names |= {node.name for node in core.walk(root, ast.ClassDef)}
+    static_names |= {
+        alias.asname or alias.name.split(".")[0]
+        for node in core.walk(root, (ast.Import, ast.ImportFrom))
+        for alias in node.names
+    }
     name_replacements = {}
 
     replacements = {}
@@ -181,6 +189,10 @@ def move_staticmethod_static_scope(source: str, preserve: Collection[str]) -> st
         return
 
     if len(name_replacements) != len(set(name_replacements.values())):
+        return
+
+    # The uses and the definition move together: if a use may not be touched, nothing moves
+    if any(core.has_ignore_comment(source, core.get_charnos(node, source)) for node in replacements):
         return
 
     transaction = 0
